@@ -56,19 +56,15 @@ theorem list_roundtrip (m : Mode) (u : UnitIn) (p : Pos) (priorR priorL : Bytes)
       (unitBase u.lowPc) j hj
     simpa [mkOut, hleg] using this
 
-/-- **Round trip, DWARF 2–4** (`.debug_ranges` / `.debug_loc`), PARTIAL: the same statement under
-the additional hypothesis `hno` that no entry's first word is the all-ones base-address marker
-(`OnesBegin`). Without `hno` the statement is FALSE — the writer accepts such entries and they read
-back as base-address selections: recorded finding C16-1, theorems `prev5_ones_begin_misread`,
-`prev5_ones_begin_witness` and `prev5_ones_begin_witness_loc` below. Full statement (not provable):
-as `list_roundtrip` with `2 ≤ version ≤ 4` and without `hno`. -/
-theorem list_roundtrip_prev5_partial (m : Mode) (u : UnitIn) (p : Pos) (priorR priorL : Bytes)
+/-- **Round trip, DWARF 2–4** (`.debug_ranges` / `.debug_loc`): the same statement, at full strength.
+(Before repo fix 58a3924 this needed the hypothesis that no entry's first word is the all-ones
+base-address marker — recorded finding C16-1; the writer now rejects such entries,
+`prev5_ones_begin_rejected`, so acceptance implies it.) -/
+theorem list_roundtrip_prev5 (m : Mode) (u : UnitIn) (p : Pos) (priorR priorL : Bytes)
     (out : UnitOut)
     (hv : 2 ≤ u.cfg.version ∧ u.cfg.version ≤ 4) (he : ∀ o ∈ u.eoff, o < 2 ^ 64)
     (hmr : ∀ l ∈ u.rng, ∀ x ∈ l, Machine .rng u.cfg (unitEOff u) p.uoff x)
     (hml : ∀ l ∈ u.loc, ∀ x ∈ l, Machine .loc u.cfg (unitEOff u) p.uoff x)
-    (hnor : ∀ l ∈ u.rng, ∀ x ∈ l, ¬ OnesBegin u.cfg x)
-    (hnol : ∀ l ∈ u.loc, ∀ x ∈ l, ¬ OnesBegin u.cfg x)
     (hpr : p.rngStart = priorR.length) (hpl : p.locStart = priorL.length)
     (hw : writeUnitAt m u p = .ok out) :
     (∀ (j : Nat) (hj : j < u.rng.length), ∃ off evs, out.rngOffs[j]? = some off ∧
@@ -84,11 +80,11 @@ theorem list_roundtrip_prev5_partial (m : Mode) (u : UnitIn) (p : Pos) (priorR p
   rw [hpl] at h2
   constructor
   · intro j hj
-    have := lists_roundtrip_prev5 m .rng u.cfg (unitEOff u) p.uoff _ priorR [] u.rng r hv heo hmr hnor h1
+    have := lists_roundtrip_prev5 m .rng u.cfg (unitEOff u) p.uoff _ priorR [] u.rng r hv heo hmr h1
       (unitBase u.lowPc) hbase j hj
     simpa [mkOut, hv.2] using this
   · intro j hj
-    have := lists_roundtrip_prev5 m .loc u.cfg (unitEOff u) p.uoff _ priorL [] u.loc l hv heo hml hnol h2
+    have := lists_roundtrip_prev5 m .loc u.cfg (unitEOff u) p.uoff _ priorL [] u.loc l hv heo hml h2
       (unitBase u.lowPc) hbase j hj
     simpa [mkOut, hv.2] using this
 
@@ -143,28 +139,31 @@ theorem emitted_v5 (m : Mode) (k : Kind) (c : Cfg) (eo : EOff) (uoff : Nat) (ub 
 pairs that need or conflict with a base address, default locations before v5 — are rejected with
 an error" -/
 
-/-- **Rejections, DWARF 2–4, entry by entry** (`hb` = `have_base_address` when the entry is
-reached: the unit has a base address, or a `BaseAddress` entry precedes in the list). Each named
-error is returned for exactly the entries it is meant for:
-* `OffsetPair`: `InvalidRange` iff empty (`begin = end`); `MissingBaseAddress` iff not empty and
-  there is no base address;
-* `StartEnd`: `InvalidRange` iff `begin = end`; `UnexpectedBaseAddress` iff not empty and there
-  is a base address;
-* `StartLength`: `InvalidRange` iff the end address overflows or the length is 0;
+/-- **Rejections, DWARF 2–4, entry by entry** (`mk` = the all-ones marker of the address size,
+`hb` = `have_base_address` when the entry is reached: the unit has a base address, or a
+`BaseAddress` entry precedes in the list). Each named error is returned for exactly the entries it
+is meant for:
+* `OffsetPair`: `InvalidRange` iff empty (`begin = end`) or `begin` is the marker;
+  `MissingBaseAddress` iff neither and there is no base address;
+* `StartEnd`: `InvalidRange` iff `begin = end` or `begin` is the constant marker;
   `UnexpectedBaseAddress` iff neither and there is a base address;
+* `StartLength`: `InvalidRange` iff the end address overflows, the length is 0 or `begin` is the
+  constant marker; `UnexpectedBaseAddress` iff none of these and there is a base address;
 * `DefaultLocation`: always `InvalidRange`. -/
-theorem rejections (m : Mode) (k : Kind) (c : Cfg) (eo : EOff) (uoff : Nat) (hb : Bool) :
-    (∀ b e x, writeEntryBare m k c eo uoff hb (.offsetPair b e x) = .err .wInvalidRange ↔ b = e) ∧
-    (∀ b e x, writeEntryBare m k c eo uoff hb (.offsetPair b e x) = .err .wMissingBaseAddress ↔
-      b ≠ e ∧ hb = false) ∧
-    (∀ b e x, writeEntryBare m k c eo uoff hb (.startEnd b e x) = .err .wInvalidRange ↔ b = e) ∧
-    (∀ b e x, writeEntryBare m k c eo uoff hb (.startEnd b e x) = .err .wUnexpectedBaseAddress ↔
-      b ≠ e ∧ hb = true) ∧
-    (∀ b len x, writeEntryBare m k c eo uoff hb (.startLength b len x) = .err .wInvalidRange ↔
-      (endOf b len = .err .wInvalidRange ∨ len = 0)) ∧
-    (∀ b len x, writeEntryBare m k c eo uoff hb (.startLength b len x) = .err .wUnexpectedBaseAddress ↔
-      ((∃ e, endOf b len = .ok e) ∧ len ≠ 0 ∧ hb = true)) ∧
-    (∀ x, writeEntryBare m k c eo uoff hb (.defaultLocation x) = .err .wInvalidRange) := by
+theorem rejections (mk : Nat) (k : Kind) (c : Cfg) (eo : EOff) (uoff : Nat) (hb : Bool) :
+    (∀ b e x, writeEntryBare mk k c eo uoff hb (.offsetPair b e x) = .err .wInvalidRange ↔
+      (b = e ∨ b = mk)) ∧
+    (∀ b e x, writeEntryBare mk k c eo uoff hb (.offsetPair b e x) = .err .wMissingBaseAddress ↔
+      ¬ (b = e ∨ b = mk) ∧ hb = false) ∧
+    (∀ b e x, writeEntryBare mk k c eo uoff hb (.startEnd b e x) = .err .wInvalidRange ↔
+      (b = e ∨ b = .const mk)) ∧
+    (∀ b e x, writeEntryBare mk k c eo uoff hb (.startEnd b e x) = .err .wUnexpectedBaseAddress ↔
+      ¬ (b = e ∨ b = .const mk) ∧ hb = true) ∧
+    (∀ b len x, writeEntryBare mk k c eo uoff hb (.startLength b len x) = .err .wInvalidRange ↔
+      (endOf b len = .err .wInvalidRange ∨ len = 0 ∨ b = .const mk)) ∧
+    (∀ b len x, writeEntryBare mk k c eo uoff hb (.startLength b len x) = .err .wUnexpectedBaseAddress ↔
+      ((∃ e, endOf b len = .ok e) ∧ len ≠ 0 ∧ b ≠ .const mk ∧ hb = true)) ∧
+    (∀ x, writeEntryBare mk k c eo uoff hb (.defaultLocation x) = .err .wInvalidRange) := by
   have tailOP : ∀ (b e : Nat) (x : WExpr) (er : Err), ListErr er →
       (do let b1 ← writeUdata c.endian b c.addrSize
           let b2 ← writeUdata c.endian e c.addrSize
@@ -188,41 +187,41 @@ theorem rejections (m : Mode) (k : Kind) (c : Cfg) (eo : EOff) (uoff : Nat) (hb 
   refine ⟨?_, ?_, ?_, ?_, ?_, ?_, ?_⟩
   · intro b e x
     simp only [writeEntryBare]
-    by_cases hbe : b = e
-    · simp [hbe]
-    · rw [if_neg hbe]
+    by_cases hP : b = e ∨ b = mk
+    · simp [hP]
+    · rw [if_neg hP]
       cases hb with
-      | false => simp [hbe]
+      | false => simp [hP]
       | true =>
-        simp only [Bool.true_eq_false, if_false, hbe, iff_false]
+        simp only [Bool.true_eq_false, if_false, hP, iff_false]
         exact tailOP b e x _ (by simp [ListErr])
   · intro b e x
     simp only [writeEntryBare]
-    by_cases hbe : b = e
-    · simp [hbe]
-    · rw [if_neg hbe]
+    by_cases hP : b = e ∨ b = mk
+    · simp [hP]
+    · rw [if_neg hP]
       cases hb with
-      | false => simp [hbe]
+      | false => simp [hP]
       | true =>
         simp only [Bool.true_eq_false, if_false, and_false, iff_false]
         exact tailOP b e x _ (by simp [ListErr])
   · intro b e x
     simp only [writeEntryBare]
-    by_cases hbe : b = e
-    · simp [hbe]
-    · rw [if_neg hbe]
+    by_cases hP : b = e ∨ b = .const mk
+    · simp [hP]
+    · rw [if_neg hP]
       cases hb with
-      | true => simp [hbe]
+      | true => simp [hP]
       | false =>
-        simp only [Bool.false_eq_true, if_false, hbe, iff_false]
+        simp only [Bool.false_eq_true, if_false, hP, iff_false]
         exact tailSE b e x _ (by simp [ListErr])
   · intro b e x
     simp only [writeEntryBare]
-    by_cases hbe : b = e
-    · simp [hbe]
-    · rw [if_neg hbe]
+    by_cases hP : b = e ∨ b = .const mk
+    · simp [hP]
+    · rw [if_neg hP]
       cases hb with
-      | true => simp [hbe]
+      | true => simp [hP]
       | false =>
         simp only [Bool.false_eq_true, if_false, and_false, iff_false]
         exact tailSE b e x _ (by simp [ListErr])
@@ -232,14 +231,18 @@ theorem rejections (m : Mode) (k : Kind) (c : Cfg) (eo : EOff) (uoff : Nat) (hb 
     | ok e =>
       simp only [Out.bind_ok, reduceCtorEq, false_or]
       have hiff := endOf_eq_iff hend
-      by_cases hbe : b = e
-      · simp [hbe, hiff.mp hbe]
-      · rw [if_neg hbe]
-        have hl : ¬ len = 0 := fun h => hbe (hiff.mpr h)
+      by_cases hP : b = e ∨ b = .const mk
+      · rw [if_pos hP]
+        simp only [true_iff]
+        rcases hP with h | h
+        · exact .inl (hiff.mp h)
+        · exact .inr h
+      · rw [if_neg hP]
+        have hQ : ¬ (len = 0 ∨ b = .const mk) := fun h => hP (h.elim (fun h => .inl (hiff.mpr h)) .inr)
         cases hb with
-        | true => simp [hl]
+        | true => simp [hQ]
         | false =>
-          simp only [Bool.false_eq_true, if_false, hl, iff_false]
+          simp only [Bool.false_eq_true, if_false, hQ, iff_false]
           exact tailSE b e x _ (by simp [ListErr])
     | err er =>
       have := endOf_err hend
@@ -253,12 +256,18 @@ theorem rejections (m : Mode) (k : Kind) (c : Cfg) (eo : EOff) (uoff : Nat) (hb 
     | ok e =>
       simp only [Out.bind_ok]
       have hiff := endOf_eq_iff hend
-      by_cases hbe : b = e
-      · simp [hbe, hiff.mp hbe]
-      · rw [if_neg hbe]
-        have hl : ¬ len = 0 := fun h => hbe (hiff.mpr h)
+      by_cases hP : b = e ∨ b = .const mk
+      · rw [if_pos hP]
+        simp only [Out.err.injEq, reduceCtorEq, false_iff, not_and]
+        intro _ hl hm
+        rcases hP with h | h
+        · exact absurd (hiff.mp h) hl
+        · exact absurd h hm
+      · rw [if_neg hP]
+        have hl : ¬ len = 0 := fun h => hP (.inl (hiff.mpr h))
+        have hm : ¬ b = .const mk := fun h => hP (.inr h)
         cases hb with
-        | true => simp [hl]
+        | true => simp [hl, hm]
         | false =>
           simp only [Bool.false_eq_true, if_false, and_false, iff_false]
           exact tailSE b e x _ (by simp [ListErr])
@@ -269,6 +278,29 @@ theorem rejections (m : Mode) (k : Kind) (c : Cfg) (eo : EOff) (uoff : Nat) (hb 
     | panic w => cases b <;> simp [endOf] at hend <;> split at hend <;> cases hend
     | diverge => cases b <;> simp [endOf] at hend <;> split at hend <;> cases hend
   · intro x; rfl
+
+/-- **The all-ones begin is rejected** (DWARF 2–4, repo fix 58a3924; formerly finding C16-1): for a
+supported address size, whatever the state, an `OffsetPair` / `StartEnd` / `StartLength` entry whose
+first word would be the base-address marker (`OnesBegin`) is rejected with `InvalidRange` — it can
+no longer be emitted and read back as a base-address selection. -/
+theorem prev5_ones_begin_rejected (m : Mode) (mk : Nat) (k : Kind) (c : Cfg) (eo : EOff) (uoff : Nat)
+    (hb : Bool) (x : WEntry) (hs : ValidSize c.addrSize) (hmk : marker m c.addrSize = .ok mk)
+    (hones : OnesBegin c x) :
+    writeEntryBare mk k c eo uoff hb x = .err .wInvalidRange := by
+  have hmkv := marker_valid hmk hs
+  obtain ⟨r1, _, r3, _, r5, _, _⟩ := rejections mk k c eo uoff hb
+  cases x with
+  | baseAddress a => exact absurd hones (by simp [OnesBegin])
+  | offsetPair b e x =>
+    simp only [OnesBegin] at hones
+    exact (r1 b e x).mpr (.inr (by rw [hones, hmkv]))
+  | startEnd b e x =>
+    simp only [OnesBegin] at hones
+    exact (r3 b e x).mpr (.inr (by rw [hones, hmkv]))
+  | startLength b len x =>
+    simp only [OnesBegin] at hones
+    exact (r5 b len x).mpr (.inr (.inr (by rw [hones, hmkv])))
+  | defaultLocation x => exact absurd hones (by simp [OnesBegin])
 
 /-- the end address of a `StartLength` entry overflows exactly when `begin + length` leaves 64
 bits (constant) resp. `addend + length` leaves `i64` (symbol) -/
@@ -305,27 +337,26 @@ theorem rejected_table (one : WList → Out Bytes) (E : Err) : ∀ (tbl : List W
     simp [writeLists, hbs, ih]
 
 /-- a list whose first entry is rejected is rejected with that error -/
-theorem rejected_list_head (m : Mode) (k : Kind) (c : Cfg) (eo : EOff) (uoff : Nat) (hb : Bool)
-    (x : WEntry) (xs : WList) (E : Err) (h : writeEntryBare m k c eo uoff hb x = .err E) :
-    writeEntriesBare m k c eo uoff hb (x :: xs) = .err E := by
+theorem rejected_list_head (mk : Nat) (k : Kind) (c : Cfg) (eo : EOff) (uoff : Nat) (hb : Bool)
+    (x : WEntry) (xs : WList) (E : Err) (h : writeEntryBare mk k c eo uoff hb x = .err E) :
+    writeEntriesBare mk k c eo uoff hb (x :: xs) = .err E := by
   simp [writeEntriesBare, h]
 
 /-- after an accepted entry the list is rejected exactly when the rest is, in the state the entry
 leaves (`have_base_address` becomes true after a `BaseAddress` entry) -/
-theorem rejected_list_tail (m : Mode) (k : Kind) (c : Cfg) (eo : EOff) (uoff : Nat) (hb hb' : Bool)
+theorem rejected_list_tail (mk : Nat) (k : Kind) (c : Cfg) (eo : EOff) (uoff : Nat) (hb hb' : Bool)
     (x : WEntry) (xs : WList) (bs : Bytes) (E : Err)
-    (h : writeEntryBare m k c eo uoff hb x = .ok (bs, hb')) :
-    (writeEntriesBare m k c eo uoff hb (x :: xs) = .err E ↔ writeEntriesBare m k c eo uoff hb' xs = .err E) ∧
+    (h : writeEntryBare mk k c eo uoff hb x = .ok (bs, hb')) :
+    (writeEntriesBare mk k c eo uoff hb (x :: xs) = .err E ↔ writeEntriesBare mk k c eo uoff hb' xs = .err E) ∧
     (hb' = true ↔ hb = true ∨ ∃ a, x = .baseAddress a) := by
   constructor
   · simp only [writeEntriesBare, h, Out.bind_ok]
-    cases hr : writeEntriesBare m k c eo uoff hb' xs <;> simp
+    cases hr : writeEntriesBare mk k c eo uoff hb' xs <;> simp
   · cases x with
     | baseAddress a =>
       simp only [writeEntryBare] at h
       obtain ⟨_, _, h1⟩ := bind_ok_inv h
-      obtain ⟨_, _, h2⟩ := bind_ok_inv h1
-      obtain ⟨_, _, h3⟩ := bind_ok_inv h2
+      obtain ⟨_, _, h3⟩ := bind_ok_inv h1
       simp only [Out.pure_eq, Out.ok.injEq, Prod.mk.injEq] at h3
       simp [← h3.2]
     | offsetPair b e x =>
@@ -403,17 +434,16 @@ theorem v5_never_rejects (k : Kind) (c : Cfg) (eo : EOff) (uoff : Nat) (x : WEnt
 addresses only — so the value `Spec.WLists.addrVal` assigns to a symbol is never used, and
 collisions of relocated symbols with the `(0,0)` terminator or the all-ones marker can only arise
 with a relocating `Writer`, which is outside the Model. -/
-theorem accepted_no_symbol (m : Mode) (k : Kind) (c : Cfg) (eo : EOff) (uoff : Nat) (hb : Bool)
+theorem accepted_no_symbol (mk : Nat) (k : Kind) (c : Cfg) (eo : EOff) (uoff : Nat) (hb : Bool)
     (x : WEntry) :
-    (∀ r, writeEntryBare m k c eo uoff hb x = .ok r → NoSymbol x) ∧
+    (∀ r, writeEntryBare mk k c eo uoff hb x = .ok r → NoSymbol x) ∧
     (∀ bs, writeEntryCoded k c eo uoff x = .ok bs → NoSymbol x) := by
   constructor
   · intro r h
     cases x with
     | baseAddress a =>
       simp only [writeEntryBare] at h
-      obtain ⟨_, _, h1⟩ := bind_ok_inv h
-      obtain ⟨_, _, h2⟩ := bind_ok_inv h1
+      obtain ⟨_, _, h2⟩ := bind_ok_inv h
       obtain ⟨_, h3, _⟩ := bind_ok_inv h2
       obtain ⟨v, hv, _⟩ := writeAddress_ok h3
       exact ⟨v, hv⟩
@@ -467,15 +497,14 @@ theorem accepted_no_symbol (m : Mode) (k : Kind) (c : Cfg) (eo : EOff) (uoff : N
       exact ⟨vb, hvb⟩
     | defaultLocation x => trivial
 
-/-- **Emitted bytes, DWARF 2–4** — PARTIAL (needs `¬ OnesBegin`, see `list_roundtrip_prev5_partial`):
-the table is the concatenation, without any header, of the Spec encoding of every distinct list in
+/-- **Emitted bytes, DWARF 2–4**: the table is the concatenation, without any header, of the Spec encoding of every distinct list in
 the bare format: each entry as the address-or-offset pair / base-address selection `toBare` names
 (location entries followed by the 2-byte counted expression), then the `(0, 0)` pair; each list at
 the offset handed back for it. -/
-theorem emitted_prev5_partial (m : Mode) (k : Kind) (c : Cfg) (eo : EOff) (uoff : Nat) (ub : Bool)
+theorem emitted_prev5 (m : Mode) (k : Kind) (c : Cfg) (eo : EOff) (uoff : Nat) (ub : Bool)
     (start : Nat) (tbl : List WList) (bytes : Bytes) (offs : List Nat)
     (hv : 2 ≤ c.version ∧ c.version ≤ 4) (he : U64EOff eo)
-    (hm : ∀ l ∈ tbl, ∀ x ∈ l, Machine k c eo uoff x) (hno : ∀ l ∈ tbl, ∀ x ∈ l, ¬ OnesBegin c x)
+    (hm : ∀ l ∈ tbl, ∀ x ∈ l, Machine k c eo uoff x)
     (hw : writeTable m k c eo uoff ub start tbl = .ok (bytes, offs)) :
     offs.length = tbl.length ∧
     ∀ (i : Nat) (hi : i < tbl.length), ∃ pre post,
@@ -488,12 +517,13 @@ theorem emitted_prev5_partial (m : Mode) (k : Kind) (c : Cfg) (eo : EOff) (uoff 
     obtain ⟨_, rfl⟩ := hw
     exact ⟨rfl, fun i hi => absurd hi (by simp)⟩
   · simp only [writeTable, hne, Bool.false_eq_true, if_false, hv, and_self, if_true] at hw
+    obtain ⟨mk, hmk, hw⟩ := bind_ok_inv hw
     obtain ⟨hl, hat⟩ := writeLists_at _ tbl _ bytes offs hw
     refine ⟨hl, ?_⟩
     intro i hi
     obtain ⟨pre, bsi, post, e1, e2, e3⟩ := hat i hi
-    obtain ⟨_, e4, _, _⟩ := writeEntriesBare_enc he hv.2 tbl[i] ub bsi (if ub = false then 0 else 0) e2
-      (hm tbl[i] (List.getElem_mem hi)) (hno tbl[i] (List.getElem_mem hi)) (by intro _; simp)
+    obtain ⟨_, e4, _, _⟩ := writeEntriesBare_enc hmk he hv.2 tbl[i] ub bsi (if ub = false then 0 else 0) e2
+      (hm tbl[i] (List.getElem_mem hi)) (by intro _; simp)
     exact ⟨pre, post, by rw [e1, e4], e3⟩
 
 /-! ## "equal lists share one identifier and one emitted copy" -/
@@ -547,7 +577,8 @@ theorem dedup_one_copy (m : Mode) (k : Kind) (c : Cfg) (eo : EOff) (uoff : Nat) 
       have : (addAll [] lists).1 = [] := by simpa using he
       simp [this]
     · split at hw
-      · exact (writeLists_at _ _ _ _ _ hw).1
+      · obtain ⟨mk, _, hw⟩ := bind_ok_inv hw
+        exact (writeLists_at _ _ _ _ _ hw).1
       · split at hw
         · obtain ⟨⟨body, offs'⟩, h1, h2⟩ := bind_ok_inv hw
           obtain ⟨len, _, h4⟩ := bind_ok_inv h2
@@ -597,52 +628,29 @@ theorem dedup_distinct_offsets (m : Mode) (k : Kind) (c : Cfg) (eo : EOff) (uoff
 
 /-- **No accepted entry is the terminator** (DWARF 2–4). Whatever entry `write_ranges` /
 `write_loc` accept (in either state), the reader does not take its bytes for the end-of-list pair
-`(0, 0)`: the two words it starts with are not both zero. (This holds in the all-ones case too.) -/
-theorem prev5_no_terminator (m : Mode) (k : Kind) (c : Cfg) (eo : EOff) (uoff : Nat) (hb hb' : Bool)
-    (x : WEntry) (bs rest r : Bytes) (hu : U64Entry x)
-    (h : writeEntryBare m k c eo uoff hb x = .ok (bs, hb')) :
+`(0, 0)`: the two words it starts with are not both zero. -/
+theorem prev5_no_terminator (m : Mode) (mk : Nat) (k : Kind) (c : Cfg) (eo : EOff) (uoff : Nat) (hb hb' : Bool)
+    (x : WEntry) (bs rest r : Bytes) (hu : U64Entry x) (hmk : marker m c.addrSize = .ok mk)
+    (h : writeEntryBare mk k c eo uoff hb x = .ok (bs, hb')) :
     parseRaw k c .bare (bs ++ rest) ≠ .ok (none, r) := by
-  obtain ⟨hs, h1, h2, hz, tail, rfl⟩ := writeEntryBare_words h hu
+  obtain ⟨hs, h1, h2, hz, tail, rfl⟩ := writeEntryBare_words hmk h hu
   have := (parseRaw_words k c _ _ (tail ++ rest) hs h1 h2 hz).2 r
   simpa [List.append_assoc] using this
 
-/-- **No accepted entry is read as another kind — PARTIAL**: an accepted entry whose first word is
-not the all-ones marker (`¬ OnesBegin`) reads back as exactly the entry it was written as — a
-`BaseAddress` entry as a base-address selection, every other entry as the address-or-offset pair
-`(begin, end)` (for `StartLength`: `end = begin + length`, no wrap) with its expression bytes.
-Full statement (FALSE, see `prev5_ones_begin_misread`): the same without `hno`. -/
-theorem prev5_ambiguity_partial (m : Mode) (k : Kind) (c : Cfg) (eo : EOff) (uoff : Nat) (hb hb' : Bool)
+/-- **No accepted entry is read as another kind** (DWARF 2–4): every accepted entry reads back as
+exactly the entry it was written as — a `BaseAddress` entry as a base-address selection, every
+other entry as the address-or-offset pair `(begin, end)` (for `StartLength`: `end = begin +
+length`, no wrap) with its expression bytes; in particular no accepted `OffsetPair` / `StartEnd` /
+`StartLength` entry is read as a base-address selection. (Full strength since repo fix 58a3924;
+before, the all-ones begin had to be excluded — finding C16-1.) -/
+theorem prev5_ambiguity (m : Mode) (mk : Nat) (k : Kind) (c : Cfg) (eo : EOff) (uoff : Nat) (hb hb' : Bool)
     (x : WEntry) (bs rest : Bytes) (hm : Machine k c eo uoff x) (he : U64EOff eo) (hv : c.version ≤ 4)
-    (hno : ¬ OnesBegin c x) (h : writeEntryBare m k c eo uoff hb x = .ok (bs, hb')) :
+    (hmk : marker m c.addrSize = .ok mk) (h : writeEntryBare mk k c eo uoff hb x = .ok (bs, hb')) :
     parseRaw k c .bare (bs ++ rest) = .ok (some (toBare (dataBytes k c eo uoff) x), rest) ∧
     ((∃ a, toBare (dataBytes k c eo uoff) x = .baseAddress a) ↔ ∃ a, x = .baseAddress a) := by
-  obtain ⟨hs, e1, w1, _⟩ := writeEntryBare_enc h hm he hv hno
+  obtain ⟨hs, e1, w1, _⟩ := writeEntryBare_enc hmk h hm he hv
   refine ⟨by rw [e1]; exact parseRaw_enc_bare k c _ rest hs w1, ?_⟩
   cases x <;> simp [toBare]
-
-/-- **Recorded finding C16-1, in general**: in DWARF 2–4 every accepted entry that is not a
-`BaseAddress` entry but whose first word is all-ones (`OffsetPair { begin: mask, .. }` with a base
-address; `StartEnd { begin: Constant(mask), .. }` without one) is read back as a base-address
-selection — `base := end` — and, in a location list, its expression bytes are left in the input
-to be parsed as the next entry. Such entries ARE accepted: `prev5_ones_begin_witness`. -/
-theorem prev5_ones_begin_misread (m : Mode) (k : Kind) (c : Cfg) (eo : EOff) (uoff : Nat) (hb hb' : Bool)
-    (x : WEntry) (bs rest : Bytes) (hu : U64Entry x) (hones : OnesBegin c x)
-    (h : writeEntryBare m k c eo uoff hb x = .ok (bs, hb')) :
-    (∀ a, x ≠ .baseAddress a) ∧
-    ∃ tail, bs = encAddr c (addrMod c.addrSize - 1) ++ encAddr c (bareWords c x).2 ++ tail ∧
-      parseRaw k c .bare (bs ++ rest) = .ok (some (.baseAddress (bareWords c x).2), tail ++ rest) := by
-  obtain ⟨hs, h1, h2, hz, tail, rfl⟩ := writeEntryBare_words h hu
-  have hw1 : (bareWords c x).1 = addrMod c.addrSize - 1 := by
-    cases x with
-    | baseAddress a => exact absurd hones (by simp [OnesBegin])
-    | offsetPair b e x => simpa [OnesBegin, bareWords] using hones
-    | startEnd b e x => simp only [OnesBegin] at hones; simp [bareWords, hones, addrVal]
-    | startLength b len x => simp only [OnesBegin] at hones; simp [bareWords, hones, addrVal]
-    | defaultLocation x => exact absurd hones (by simp [OnesBegin])
-  refine ⟨?_, tail, by rw [hw1], ?_⟩
-  · intro a ha; subst ha; exact absurd hones (by simp [OnesBegin])
-  · have := (parseRaw_words k c _ _ (tail ++ rest) hs h1 h2 hz).1 hw1
-    simpa [List.append_assoc] using this
 
 /-! ## "start/length ranges: no overflow" (after the repair `fix: overflow computing the end of a
 start/length range or location`) -/
@@ -651,21 +659,22 @@ start/length range or location`) -/
 or an error; `InvalidRange` when `begin + length` leaves 64 bits; and when the entry is accepted
 the end address written is the exact sum `begin + length`, which fits the address size. In DWARF 5
 the length is emitted as it is (ULEB128), no sum is computed (`emitted_v5`). -/
-theorem start_length_no_overflow (m : Mode) (k : Kind) (c : Cfg) (eo : EOff) (uoff : Nat) (hb : Bool)
-    (b len : Nat) (x : WExpr) (hbu : b < 2 ^ 64) (hlu : len < 2 ^ 64) (hx : ∀ op ∈ x, U64Op op) :
-    (writeEntryBare m k c eo uoff hb (.startLength (.const b) len x)).Normal ∧
+theorem start_length_no_overflow (m : Mode) (mk : Nat) (k : Kind) (c : Cfg) (eo : EOff) (uoff : Nat) (hb : Bool)
+    (b len : Nat) (x : WExpr) (hbu : b < 2 ^ 64) (hlu : len < 2 ^ 64) (hx : ∀ op ∈ x, U64Op op)
+    (hmk : marker m c.addrSize = .ok mk) :
+    (writeEntryBare mk k c eo uoff hb (.startLength (.const b) len x)).Normal ∧
     (2 ^ 64 ≤ b + len →
-      writeEntryBare m k c eo uoff hb (.startLength (.const b) len x) = .err .wInvalidRange) ∧
-    (∀ bs hb', writeEntryBare m k c eo uoff hb (.startLength (.const b) len x) = .ok (bs, hb') →
+      writeEntryBare mk k c eo uoff hb (.startLength (.const b) len x) = .err .wInvalidRange) ∧
+    (∀ bs hb', writeEntryBare mk k c eo uoff hb (.startLength (.const b) len x) = .ok (bs, hb') →
       b + len < addrMod c.addrSize ∧ len ≠ 0 ∧
       ∃ tail, bs = encAddr c b ++ encAddr c (b + len) ++ tail) := by
-  refine ⟨writeEntryBare_normal m k c eo uoff hb _ (.inl (by simp)), ?_, ?_⟩
+  refine ⟨writeEntryBare_normal mk k c eo uoff hb _, ?_, ?_⟩
   · intro hov
     have : ¬ b + len < 2 ^ 64 := by omega
     simp [writeEntryBare, endOf, this]
   · intro bs hb' h
     obtain ⟨_, _, h2, _, tail, e⟩ :=
-      writeEntryBare_words (x := .startLength (.const b) len x) h ⟨hbu, hlu, hx⟩
+      writeEntryBare_words (x := .startLength (.const b) len x) hmk h ⟨hbu, hlu, hx⟩
     simp only [bareWords, addrVal] at h2 e
     refine ⟨h2, ?_, tail, e⟩
     intro h0; subst h0
@@ -691,7 +700,7 @@ theorem unit_config_rejections (m : Mode) (u : UnitIn) (p : Pos) :
     unfold ValidSize at h
     simp [writeUnitAt, h, hv]
 
-/-! ## the recorded finding's witness, and non-vacuity of the hypotheses -/
+/-! ## the former finding's witnesses as regressions, and non-vacuity of the hypotheses -/
 
 private def cfg4 : Cfg := { endian := .little, format := .dwarf32, version := 4, addrSize := 4 }
 private def cfg5 : Cfg := { endian := .big, format := .dwarf64, version := 5, addrSize := 8 }
@@ -702,42 +711,23 @@ private def uBad : UnitIn :=
     rng := [[.startEnd (.const 0xffffffff) (.const 5) [], .startEnd (.const 0x10) (.const 0x20) []]],
     loc := [] }
 
-/-- **Recorded finding C16-1, witness** (`known_findings.d/C16.json`): a DWARF 4 unit without base
-address with the range list `[StartEnd(0xffff_ffff, 5), StartEnd(0x10, 0x20)]` (address size 4) is
-ACCEPTED; the list means `[0x10, 0x20)`, and reads back as `[0x15, 0x25)` — so
-`list_roundtrip_prev5_partial` cannot be strengthened by dropping `¬ OnesBegin`, and the property's
-"lists that cannot be represented unambiguously … are rejected" fails for the all-ones begin. -/
-theorem prev5_ones_begin_witness :
-    ∃ (u : UnitIn) (out : UnitOut) (evs : List (Ev Item)),
-      (2 ≤ u.cfg.version ∧ u.cfg.version ≤ 4) ∧
-      (∀ l ∈ u.rng, ∀ x ∈ l, Machine .rng u.cfg (unitEOff u) 0 x) ∧
-      writeUnit .debug u = .ok out ∧ out.rngOffs = [0] ∧
-      cookedAt .rng u.cfg false out.debugRanges out.debugRnglists 0 (unitBase u.lowPc) [] 0 = .ok evs ∧
-      evs.map denot = [.range 0x15 0x25 []] ∧
-      meaning u.cfg.addrSize (dataBytes .rng u.cfg (unitEOff u) 0) (unitBase u.lowPc) u.rng[0]! =
-        [.range 0x10 0x20 []] :=
-  ⟨uBad, ⟨[0], [], [0], [],
-      [0xff, 0xff, 0xff, 0xff, 5, 0, 0, 0, 0x10, 0, 0, 0, 0x20, 0, 0, 0, 0, 0, 0, 0, 0, 0, 0, 0], [], [], []⟩,
-    [.item ⟨0x15, 0x25, []⟩], by decide, by decide, by decide, by decide, by decide, by decide, by decide⟩
-
 private def uBadLoc : UnitIn :=
   { cfg := cfg4, lowPc := some (.const 0x1000), eoff := [], rng := [],
     loc := [[.offsetPair 0xffffffff 1 [.raw [0xf4, 0xb5, 0x65, 0x5e]]]] }
 
-/-- **Finding C16-1 in a location list**: `[OffsetPair(0xffff_ffff, 1, expr)]` in a DWARF 4 unit with
-base address 0x1000 (address size 4) means the location `[0xfff, 0x1001)` (offset -1). It is
-accepted; read back, the entry is taken for a base-address selection and its 2-byte length and
-expression bytes for the next entry: the reader yields no location and ends with an error. -/
-theorem prev5_ones_begin_witness_loc :
-    ∃ (out : UnitOut) (e : Err),
-      writeUnit .debug uBadLoc = .ok out ∧ out.locOffs = [0] ∧
-      cookedAt .loc uBadLoc.cfg false out.debugLoc out.debugLoclists 0 (unitBase uBadLoc.lowPc) [] 0 =
-        .ok [.error e] ∧
-      meaning 4 (dataBytes .loc uBadLoc.cfg (unitEOff uBadLoc) 0) (unitBase uBadLoc.lowPc) uBadLoc.loc[0]! =
-        [.range 0xfff 0x1001 [0xf4, 0xb5, 0x65, 0x5e]] :=
-  ⟨⟨[], [0], [], [0], [], [],
-      [0xff, 0xff, 0xff, 0xff, 1, 0, 0, 0, 4, 0, 0xf4, 0xb5, 0x65, 0x5e, 0, 0, 0, 0, 0, 0, 0, 0], []⟩,
-    .rUnexpectedEof, by decide, by decide, by decide, by decide⟩
+/-- **The witnesses of the former finding C16-1 are rejected** (repo fix 58a3924). The DWARF 4
+units with the range list `[StartEnd(0xffff_ffff, 5), StartEnd(0x10, 0x20)]` (no base address;
+it means `[0x10, 0x20)` and used to read back as `[0x15, 0x25)`) and with the location list
+`[OffsetPair(0xffff_ffff, 1, expr)]` (base address 0x1000; it means `[0xfff, 0x1001)` and used to
+read back as an error) are now refused with `InvalidRange`, in both arithmetic modes. -/
+theorem prev5_ones_begin_regression :
+    writeUnit .debug uBad = .err .wInvalidRange ∧ writeUnit .release uBad = .err .wInvalidRange ∧
+    writeUnit .debug uBadLoc = .err .wInvalidRange ∧ writeUnit .release uBadLoc = .err .wInvalidRange ∧
+    meaning 4 (dataBytes .rng uBad.cfg (unitEOff uBad) 0) (unitBase uBad.lowPc) uBad.rng[0]! =
+      [.range 0x10 0x20 []] ∧
+    meaning 4 (dataBytes .loc uBadLoc.cfg (unitEOff uBadLoc) 0) (unitBase uBadLoc.lowPc) uBadLoc.loc[0]! =
+      [.range 0xfff 0x1001 [0xf4, 0xb5, 0x65, 0x5e]] := by
+  refine ⟨by decide, by decide, by decide, by decide, by decide, by decide⟩
 
 /-- a DWARF 5 unit with base address 0x1000, two range lists (one added twice) and a location list
 with a `DW_OP_call4` / `DW_OP_convert` / `DW_OP_call_ref` expression, an empty range, a default
@@ -778,20 +768,23 @@ example : (writeUnit .release uOld).map (fun o => (o.debugRanges, o.debugLoc)) =
           0, 0, 0, 0, 0, 0, 0, 0],
          [0x10, 0, 0, 0, 0x14, 0, 0, 0, 2, 0, 0x51, 0x52, 0, 0, 0, 0, 0, 0, 0, 0]) := by decide
 
--- the rejections fire on concrete entries
-example : writeEntryBare .debug .rng cfg4 (fun _ => none) 0 false (.offsetPair 1 2 []) = .err .wMissingBaseAddress := by
-  decide
-example : writeEntryBare .debug .rng cfg4 (fun _ => none) 0 true (.startEnd (.const 1) (.const 2) []) =
+-- the rejections fire on concrete entries (`0xffff_ffff` = the marker of address size 4)
+example : marker .debug cfg4.addrSize = .ok 0xffff_ffff := by decide
+example : writeEntryBare 0xffff_ffff .rng cfg4 (fun _ => none) 0 false (.offsetPair 1 2 []) =
+    .err .wMissingBaseAddress := by decide
+example : writeEntryBare 0xffff_ffff .rng cfg4 (fun _ => none) 0 true (.startEnd (.const 1) (.const 2) []) =
     .err .wUnexpectedBaseAddress := by decide
-example : writeEntryBare .debug .rng cfg4 (fun _ => none) 0 false (.startLength (.const (2 ^ 64 - 1)) 2 []) =
+example : writeEntryBare 0xffff_ffff .rng cfg4 (fun _ => none) 0 false (.startLength (.const (2 ^ 64 - 1)) 2 []) =
     .err .wInvalidRange := by decide
 example : writeExprLen cfg4 65535 = .ok [0xff, 0xff] ∧ writeExprLen cfg4 65536 = .err .wValueTooLarge := by decide
--- an accepted all-ones begin (hypothesis of `prev5_ones_begin_misread`)
+-- an all-ones begin (hypothesis of `prev5_ones_begin_rejected`) is rejected, its neighbour is accepted
 example : OnesBegin cfg4 (.offsetPair 0xffff_ffff 20 []) ∧
-    (writeEntryBare .debug .rng cfg4 (fun _ => none) 0 true (.offsetPair 0xffff_ffff 20 [])).isOk = true := by
+    writeEntryBare 0xffff_ffff .rng cfg4 (fun _ => none) 0 true (.offsetPair 0xffff_ffff 20 []) =
+      .err .wInvalidRange ∧
+    (writeEntryBare 0xffff_ffff .rng cfg4 (fun _ => none) 0 true (.offsetPair 0xffff_fffe 20 [])).isOk = true := by
   decide
 -- the only panic of the table writers (address size 0 with overflow checks) is cut off by `Unit::write`
-example : writeEntryBare .debug .rng { cfg4 with addrSize := 0 } (fun _ => none) 0 false (.baseAddress (.const 1)) =
+example : writeTable .debug .rng { cfg4 with addrSize := 0 } (fun _ => none) 0 false 0 [[.baseAddress (.const 1)]] =
     .panic "attempt to shift right with overflow" := by decide
 example : writeUnit .debug { uBad with cfg := { cfg4 with addrSize := 0 }, rng := [[.baseAddress (.const 1)]] } =
     .err .wUnsupportedWordSize := by decide
